@@ -1,6 +1,8 @@
 import Relay.Extracted.GenAccess
 import Relay.Extracted.GenPermission
 import Relay.Model.Access
+import Relay.Tie.Deny
+import Relay.Tie.TtlCode
 
 /-!
 # Tie: the scope / required-claims decisions of the access API, translated from today's source
@@ -133,7 +135,120 @@ theorem stats_granted_iff (w : Go.World) (b : Bearer) :
   rw [hasStatsScope_tie]
   by_cases hc : claimsCheck b = true <;> by_cases hs : b.scopes.contains "relay:stats" = true <;> simp [hasStatsScope, hc, hs]
 
-theorem coverage : Gen.access.untranslated = [] ∧ Gen.access.translated = ["claimsCheck", "hasStatsScope", "isRelayAdmin"] ∧
+/-! ## The admin handlers (`denyHandler`, `allowHandler`, `listDeniedHandler`, `listAllowedHandler`) as translated today
+
+The handlers receive the principal `validateHeader` accepted and the parameters go-openapi bound; they act on the shared
+stores through the configuration. `cfgOk` says which register / code-store model states the configuration holds. -/
+
+structure CfgOk (name : Nat → String) (cfg : Gen.access.Config) (reg : Deny.Reg) (codes : TtlCode.Store) : Prop where
+  reg : cfg.DenyStore = TieDeny.toGen reg
+  codes : cfg.CodeStore = TieTtlCode.toGen name codes
+
+theorem isRelayAdmin_err_isNone (w : Go.World) (t : Bearer) :
+    ((Gen.access.isRelayAdmin w (prin t)).2).isNone = isRelayAdmin t := by
+  rw [isRelayAdmin_tie]
+  by_cases hc : claimsCheck t = true <;> by_cases hs : "relay:admin" ∈ t.scopes <;> simp [isRelayAdmin, hc, hs]
+
+/-- `denyHandler`: refusals leave the configuration alone and notify nobody; a granted request lists the booking, purges its
+    codes and sends exactly one notification, the booking id — the model's `denyReq` after authentication and binding -/
+theorem denyHandler_tie (name : Nat → String) (hinj : Function.Injective name) (w : Go.World) (cfg : Gen.access.Config)
+    (reg : Deny.Reg) (codes : TtlCode.Store) (hcfg : CfgOk name cfg reg codes) (hw : TieTtlCode.WorldOk name w codes)
+    (hg : TieTtlCode.Good codes) (b : String) (e : Int) (t : Bearer) :
+    let r := Gen.access.denyHandler w cfg { Bid := b, Exp := e } (prin t)
+    (isRelayAdmin t = false → r.1.code = 401 ∧ r.2.1 = cfg ∧ r.2.2 = []) ∧
+    (isRelayAdmin t = true → b = "" → r.1.code = 400 ∧ r.2.1 = cfg ∧ r.2.2 = []) ∧
+    (isRelayAdmin t = true → b ≠ "" → e < reg.now → r.1.code = 400 ∧ r.2.1 = cfg ∧ r.2.2 = []) ∧
+    (isRelayAdmin t = true → b ≠ "" → ¬ e < reg.now →
+      r.1 = .status 204 ∧ r.2.2 = [b] ∧
+      CfgOk name r.2.1 (Deny.step reg (.deny b e)) (TtlCode.step codes (.deleteByBooking b)).1) := by
+  have hadm := isRelayAdmin_err_isNone w t
+  have hnow : cfg.DenyStore.Now () = reg.now := by rw [hcfg.reg]; rfl
+  refine ⟨?_, ?_, ?_, ?_⟩
+  · intro h
+    simp [Gen.access.denyHandler, hadm, h, Go.Resp.code]
+  · intro h hb
+    simp [Gen.access.denyHandler, hadm, h, hb, Go.Resp.code]
+  · intro h hb he
+    simp [Gen.access.denyHandler, hadm, h, hb, hnow, he, Go.Resp.code]
+  · intro h hb he
+    simp only [Gen.access.denyHandler, hadm, h, hb, hnow, he, Bool.not_true, Bool.false_eq_true, if_false, decide_false, decide_eq_true_eq,
+      List.nil_append, true_and]
+    refine ⟨?_, ?_⟩
+    · simp only [hcfg.reg]
+      exact TieDeny.deny_tie w reg b e
+    · simp only [hcfg.codes]
+      exact TieTtlCode.deleteByBooking_tie hinj w codes hw hg b
+
+theorem allowHandler_tie (name : Nat → String) (w : Go.World) (cfg : Gen.access.Config)
+    (reg : Deny.Reg) (codes : TtlCode.Store) (hcfg : CfgOk name cfg reg codes) (b : String) (e : Int) (t : Bearer) :
+    let r := Gen.access.allowHandler w cfg { Bid := b, Exp := e } (prin t)
+    (isRelayAdmin t = false → r.1.code = 401 ∧ r.2 = cfg) ∧
+    (isRelayAdmin t = true → b = "" → r.1.code = 400 ∧ r.2 = cfg) ∧
+    (isRelayAdmin t = true → b ≠ "" → e < reg.now → r.1.code = 400 ∧ r.2 = cfg) ∧
+    (isRelayAdmin t = true → b ≠ "" → ¬ e < reg.now →
+      r.1 = .status 204 ∧ CfgOk name r.2 (Deny.step reg (.allow b e)) codes) := by
+  have hadm := isRelayAdmin_err_isNone w t
+  have hnow : cfg.DenyStore.Now () = reg.now := by rw [hcfg.reg]; rfl
+  refine ⟨?_, ?_, ?_, ?_⟩
+  · intro h
+    simp [Gen.access.allowHandler, hadm, h, Go.Resp.code]
+  · intro h hb
+    simp [Gen.access.allowHandler, hadm, h, hb, Go.Resp.code]
+  · intro h hb he
+    simp [Gen.access.allowHandler, hadm, h, hb, hnow, he, Go.Resp.code]
+  · intro h hb he
+    simp only [Gen.access.allowHandler, hadm, h, hb, hnow, he, Bool.not_true, Bool.false_eq_true, if_false, decide_false, decide_eq_true_eq, true_and]
+    refine ⟨?_, hcfg.codes⟩
+    simp only [hcfg.reg]
+    exact TieDeny.allow_tie w reg b e
+
+/-- the list endpoints: 401 without the admin scope, else exactly the ids on the list (in some order) -/
+theorem listDeniedHandler_tie (name : Nat → String) (w : Go.World) (hw : w.OrdOk) (cfg : Gen.access.Config)
+    (reg : Deny.Reg) (codes : TtlCode.Store) (hcfg : CfgOk name cfg reg codes) (t : Bearer) :
+    let r := Gen.access.listDeniedHandler w cfg ⟨⟩ (prin t)
+    (isRelayAdmin t = false → r.code = 401) ∧
+    (isRelayAdmin t = true → ∃ l, r = .ids 200 l ∧ l.Perm (KV.keys reg.deny)) := by
+  have hadm := isRelayAdmin_err_isNone w t
+  refine ⟨?_, ?_⟩
+  · intro h
+    simp [Gen.access.listDeniedHandler, hadm, h, Go.Resp.code]
+  · intro h
+    simp only [Gen.access.listDeniedHandler, hadm, h, Bool.not_true, Bool.false_eq_true, if_false, hcfg.reg]
+    exact ⟨_, rfl, TieDeny.getDenyList_tie w hw reg⟩
+
+theorem listAllowedHandler_tie (name : Nat → String) (w : Go.World) (hw : w.OrdOk) (cfg : Gen.access.Config)
+    (reg : Deny.Reg) (codes : TtlCode.Store) (hcfg : CfgOk name cfg reg codes) (t : Bearer) :
+    let r := Gen.access.listAllowedHandler w cfg ⟨⟩ (prin t)
+    (isRelayAdmin t = false → r.code = 401) ∧
+    (isRelayAdmin t = true → ∃ l, r = .ids 200 l ∧ l.Perm (KV.keys reg.allow)) := by
+  have hadm := isRelayAdmin_err_isNone w t
+  refine ⟨?_, ?_⟩
+  · intro h
+    simp [Gen.access.listAllowedHandler, hadm, h, Go.Resp.code]
+  · intro h
+    simp only [Gen.access.listAllowedHandler, hadm, h, Bool.not_true, Bool.false_eq_true, if_false, hcfg.reg]
+    exact ⟨_, rfl, TieDeny.getAllowList_tie w hw reg⟩
+
+/-- the model's `denyReq` (after authentication and parameter binding) answers with the status the translated handler returns -/
+theorem denyReq_status_as_translated (name : Nat → String) (hinj : Function.Injective name) (w : Go.World) (gcfg : Gen.access.Config)
+    (cfg : Access.Config) (s : Access.St) (hcfg : CfgOk name gcfg s.reg s.codes) (hw : TieTtlCode.WorldOk name w s.codes)
+    (hg : TieTtlCode.Good s.codes) (hnow : s.reg.now = s.now)
+    (t : Bearer) (hv : headerValid cfg s.now t = true) (b es : String) (e : Int) (hb : b ≠ "") (hes : es ≠ "") (hp : parseInt64 es = some e) :
+    (denyReq cfg s (.token t) (some b) (some es)).2.code = (Gen.access.denyHandler w gcfg { Bid := b, Exp := e } (prin t)).1.code := by
+  have h := denyHandler_tie name hinj w gcfg s.reg s.codes hcfg hw hg b e t
+  simp only [denyReq, authenticate, hv, if_true, bindBidExp, hb, hes, or_self, if_false, hp, Option.map_some]
+  by_cases ha : isRelayAdmin t = true
+  · by_cases he : e < s.now
+    · have := (h.2.2.1 ha hb (by rw [hnow]; exact he)).1
+      simp [ha, he, this, Resp.code]
+    · have := (h.2.2.2 ha hb (by rw [hnow]; exact he)).1
+      simp [ha, he, this, Resp.code, Go.Resp.code]
+  · have ha' : isRelayAdmin t = false := by simpa using ha
+    have := (h.1 ha').1
+    simp [ha', this, Resp.code]
+
+theorem coverage : Gen.access.untranslated = [] ∧
+    Gen.access.translated = ["allowHandler", "claimsCheck", "denyHandler", "hasStatsScope", "isRelayAdmin", "listAllowedHandler", "listDeniedHandler"] ∧
     Gen.permission.untranslated.map (·.1) = ["NewToken"] ∧ Gen.permission.translated = ["HasRequiredClaims", "Token.SetBookingID"] := by
   decide
 
